@@ -9,7 +9,7 @@ def s(b):
 
 def run(ctx):
     out = ctx.go_test("cmd/restic", "^TestVerif_C50$", timeout=2400)
-    n, bad, lines = ctx.check_records("Fn_StripPw", os.path.join(out, "recs.ndjson"), shard=ctx.pick(2500, 8000), timeout=1500)
+    n, bad, lines = ctx.check_records("Fn_StripPw", os.path.join(out, "recs.ndjson"), shard=ctx.pick(4000, 8000), timeout=1500)
     seen = {}
     for i in bad:
         r = json.loads(lines[i - 1])
